@@ -107,6 +107,7 @@ type JobRes struct {
 	Job         Job              `json:"job"`
 	Paths       []PathRes        `json:"paths"`
 	Obligations []Obligation     `json:"obligations"`
+	Closed      int              `json:"closed"` // obligations closed syntactically (not listed)
 	Forks       int              `json:"forks"`
 	Funcs       map[string]int   `json:"funcs"`
 	ReachSeen   map[string]int   `json:"reach_seen"`
